@@ -436,6 +436,9 @@ func c07(c *Ctx) {
 		c.Check(good, "R5", "aggregate|(*expoHistogram).measure|record dominated by !IsNaN and !IsInf", at(ax.M, fn.Pos()), "non-finite values never reach the bucket arithmetic", "NaN/Inf reach getBin (undefined bucket index, scale collapse)")
 	}
 
+	c.Rule("R7", "E4 role agreement", "in the exponential collect methods every statement that fills PositiveBucket reads posBuckets only and every statement that fills NegativeBucket reads negBuckets only", 2)
+	ruleSignRoles(c, ax, "R7")
+
 	c.Rule("R6", "E4 ownership", "cumulative collection never hands out the aggregator's retained count slices: copies via slices.Clone / copy into a reset buffer", 4)
 	for _, sp := range []struct{ fn, elemT string }{{"(*histogram).cumulative", "buckets"}, {"(*expoHistogram).cumulative", "expoBuckets"}, {"(*expoHistogram).delta", "expoBuckets"}} {
 		fn := c.Fn(ax, "R6", sp.fn)
@@ -496,4 +499,68 @@ func joinStr(ss []string) string {
 		out += s
 	}
 	return out
+}
+
+// ruleSignRoles (C07.R7 / C08.R8): positive/negative bucket roles agree statement by statement in the exponential collect methods.
+func ruleSignRoles(c *Ctx, ax *PkgIndex, rule string) {
+	info := ax.Pkg.TypesInfo
+	for _, nm := range []string{"(*expoHistogram).delta", "(*expoHistogram).cumulative"} {
+		fn := c.Fn(ax, rule, nm)
+		if fn == nil {
+			continue
+		}
+		fPos, fNeg := lookupField(ax.Pkg, "expoHistogramDataPoint", "posBuckets"), lookupField(ax.Pkg, "expoHistogramDataPoint", "negBuckets")
+		var bad []string
+		n := 0
+		var visit func(st ast.Stmt)
+		check := func(st ast.Stmt) {
+			mPos, mNeg, rPos, rNeg := false, false, false, false
+			ast.Inspect(st, func(m ast.Node) bool {
+				if sel, ok := m.(*ast.SelectorExpr); ok {
+					switch sel.Sel.Name {
+					case "PositiveBucket":
+						mPos = true
+					case "NegativeBucket":
+						mNeg = true
+					}
+					if isField(info, sel, fPos) {
+						rPos = true
+					}
+					if isField(info, sel, fNeg) {
+						rNeg = true
+					}
+				}
+				return true
+			})
+			if mPos || mNeg {
+				n++
+			}
+			if (mPos && rNeg) || (mNeg && rPos) {
+				bad = append(bad, ax.M.posStr(st.Pos()))
+			}
+		}
+		visit = func(st ast.Stmt) {
+			switch s := st.(type) {
+			case *ast.BlockStmt:
+				for _, x := range s.List {
+					visit(x)
+				}
+			case *ast.RangeStmt:
+				visit(s.Body)
+			case *ast.ForStmt:
+				visit(s.Body)
+			case *ast.IfStmt:
+				visit(s.Body)
+				if s.Else != nil {
+					visit(s.Else)
+				}
+			default:
+				check(st)
+			}
+		}
+		visit(fn.Body())
+		c.Check(n >= 4 && len(bad) == 0, rule, "aggregate|"+nm+"|positive/negative bucket roles agree", at(ax.M, fn.Pos()), itoa(n)+" statements, none mixes the signs",
+			"a statement fills one sign's output bucket from the other sign's state (at "+joinStr(bad)+"): negative and positive bucket counts are swapped or duplicated, buckets no longer add up to count")
+	}
+
 }
